@@ -31,6 +31,7 @@ func VerifC13RaceTCP() {
 	_ = ln1.Close()
 	zzverif.Quiesce()
 	zzverif.Assert(bDone, "C13.race.join-terminates")
+	zzverif.Assert(err2 == nil, "C13.race.valid-join-succeeds-even-while-last-member-leaves")
 	if err2 == nil {
 		zzverif.Reach("C13.race.joined")
 		// B is a live member: the group must be reachable and its endpoint alive
@@ -73,6 +74,7 @@ func VerifC13RaceHTTP() {
 	ctl.UnRegister("p1", "g", rc)
 	zzverif.Quiesce()
 	zzverif.Assert(bDone, "C13.race.join-terminates")
+	zzverif.Assert(err2 == nil, "C13.racehttp.valid-join-succeeds-even-while-last-member-leaves")
 	if err2 == nil {
 		zzverif.Reach("C13.racehttp.joined")
 		g, ok := ctl.groups["g"]
